@@ -87,6 +87,7 @@ pub fn plan(prop: &str) -> Option<Plan> {
         }
         "C04" => {
             p.name = "C04";
+            p.w_rootless = 2;
             p.w_drop_arena = 5;
             p.w_drop_fault = 3;
             p.w_sweep_fault = 3;
@@ -252,6 +253,7 @@ pub fn plan(prop: &str) -> Option<Plan> {
         }
         "C11" => {
             p.name = "C11";
+            p.w_rootless = 2;
             p.w_trace_panic = 14;
             p.w_cb_panic = 12;
             p.w_map_root = 6;
